@@ -9,11 +9,15 @@ sys.path.insert(0, os.path.join(VERIF, "driver"))
 import props  # noqa
 import manifest_text as mt  # noqa
 
+# Checks the coordinator has reviewed, run on the unchanged tree and triaged (a harness
+# that merely exists is not claimed).
+CLAIMED = open(os.path.join(VERIF, "driver", "claimed.txt")).read().split()
+
 ids = [json.loads(l)["id"] for l in open(os.path.join(VERIF, "properties.jsonl"))]
 checks = []
 na = []
 for pid in ids:
-    if pid in props.PROPS and pid in mt.TEXT and props.PROPS[pid].get("ready"):
+    if pid in props.PROPS and pid in mt.TEXT and pid in CLAIMED:
         t = mt.TEXT[pid]
         checks.append({
             "property_id": pid,
